@@ -57,7 +57,10 @@ SPEC = {
             "(worker, source, kind multiset, offset); non-trivial = at least one connection is open at the trigger",
     "trusted": ["asyncio / trio cancel-scope deadlines / sockets (measured, real clock)",
                 "h2 and wsproto in client role as oracles for what the peer sees"],
-    "partial": ["what the peer of a *cancelled* handler sees is modelled only as far as GOAWAY (asyncio: the cancelled handler still "
+    "partial": ["a connection handler held in a transport write that its peer does not drain is outside the worker model (the model's handlers end "
+                "when they are cancelled): scenarios of kind noread_h1 are judged by the monitors only; on the code as it is both workers "
+                "fail `bounded` there (known finding F113)",
+                "what the peer of a *cancelled* handler sees is modelled only as far as GOAWAY (asyncio: the cancelled handler still "
                 "closes its stream and says GOAWAY, Runtime.h2CancelSaysGoaway, measured; trio: nothing): the 500 response head the "
                 "cancelled asyncio application task still writes is not in the model",
                 "frame-level completeness of HTTP/2 responses at shutdown is outside the model (known finding F30: on trio the "
@@ -101,6 +104,10 @@ def conn_steps(kind: str, cid: int, off: float) -> (str, List[list]):
         return "h1", [["at", t_req - 0.02], ["connect"], ["at", t_req], ["get", f"/d/{long_ms}/{cid}"], ["read", 3.2], ["wait_close", 3.5]]
     if kind == "hang_h1":
         return "h1", [["at", t_req - 0.02], ["connect"], ["at", t_req], ["get", f"/hang/{cid}"], ["read", 3.2], ["wait_close", 3.5]]
+    if kind == "noread_h1":
+        # a request in progress whose client does not read: the application is held in send() by back-pressure, the handler
+        # is cancelled at the end of the grace period with unsent data in the transport
+        return "h1", [["at", t_req - 0.02], ["connect_small"], ["at", t_req], ["get", f"/big/200/{cid}"], ["hold", 3.4]]
     if kind == "idle_h2":
         return "h2", [["at", 0.05], ["connect"], ["at", 0.25], ["stream", f"/d/0/{cid}"], ["pump", 0.4], ["wait_close", 3.5]]
     if kind == "fresh_h2":
@@ -116,7 +123,7 @@ def conn_steps(kind: str, cid: int, off: float) -> (str, List[list]):
     raise ValueError(kind)
 
 
-KINDS = ["idle_h1", "fresh_h1", "midhead_h1", "short_h1", "pipelined_h1", "late_request_h1", "long_h1", "hang_h1", "idle_h2", "fresh_h2",
+KINDS = ["idle_h1", "fresh_h1", "midhead_h1", "short_h1", "pipelined_h1", "late_request_h1", "long_h1", "hang_h1", "noread_h1", "idle_h2", "fresh_h2",
          "open_h2_short", "open_h2_long", "ws"]
 IDLE_KINDS = {"idle_h1", "fresh_h1", "midhead_h1", "idle_h2", "fresh_h2"}
 # HTTP/1 connections whose request in progress at the trigger ends inside the grace period: one response, then closed
@@ -125,7 +132,7 @@ IN_GRACE_H1 = {"short_h1", "pipelined_h1", "late_request_h1"}
 # (steps after the trigger are timed from the instant shutdown was actually triggered: `after_trigger`)
 DONE_BEFORE = {"idle_h1": 1, "idle_h2": 1}
 LATE_TOL = 0.06          # a step of the harness itself later than this: the run is repeated (the machine was busy), see evaluate
-SCOPES_BEFORE = {"idle_h1": 1, "fresh_h1": 0, "midhead_h1": 0, "short_h1": 1, "pipelined_h1": 1, "late_request_h1": 1, "long_h1": 1, "hang_h1": 1,
+SCOPES_BEFORE = {"idle_h1": 1, "fresh_h1": 0, "midhead_h1": 0, "short_h1": 1, "pipelined_h1": 1, "late_request_h1": 1, "long_h1": 1, "hang_h1": 1, "noread_h1": 1,
                  "idle_h2": 1, "fresh_h2": 0, "open_h2_short": 2, "open_h2_long": 1, "ws": 1}
 
 
@@ -165,7 +172,8 @@ def gen(ctx: Ctx) -> List[dict]:
         for k in KINDS:
             out.append(scenario(worker, [k]))
         for mix in (["idle_h1", "short_h1"], ["short_h1", "open_h2_short", "idle_h2"], ["hang_h1", "idle_h1", "ws"], ["midhead_h1", "short_h1"],
-                    ["pipelined_h1", "hang_h1"], ["late_request_h1", "pipelined_h1", "idle_h1"]):
+                    ["pipelined_h1", "hang_h1"], ["late_request_h1", "pipelined_h1", "idle_h1"], ["noread_h1", "short_h1"],
+                    ["noread_h1", "noread_h1", "idle_h1"]):
             out.append(scenario(worker, mix))
         for k in ([], ["idle_h1"], ["short_h1"], ["hang_h1"], ["idle_h2", "short_h1"], ["pipelined_h1"]):
             out.append(scenario(worker, k, source="max_requests"))
@@ -204,12 +212,13 @@ def monitors(ctx: Any, sc: dict, obs: dict, iv: dict) -> None:      # ctx: Ctx o
 
     if T is None:
         raise wk.HarnessFailure(f"no trigger instant observed in {json.dumps(sc)[:300]}")
-    stuck_kinds = [k for k in sc["kinds"] if k in ("long_h1", "hang_h1", "open_h2_long", "ws")]
+    stuck_kinds = [k for k in sc["kinds"] if k in ("long_h1", "hang_h1", "noread_h1", "open_h2_long", "ws")]
     # 1. bounded
     bound = T + G + S + SLACK
     if iv["outcome"] == "stuck" or (iv["return_s"] is not None and iv["return_s"] > bound):
         # what is still open when the grace period ends
         viol("bounded", "h2_stream_outliving_grace" if stuck_kinds and set(stuck_kinds) == {"open_h2_long"} else
+             "unread_response_outliving_grace" if "noread_h1" in stuck_kinds else
              "connection_outliving_grace" if stuck_kinds else "none",
              {"trigger_at": T, "bound_with_slack": bound, "serve": iv["outcome"], "returned_at": iv["return_s"],
               "connections": sorted(set(stuck_kinds))})
@@ -390,6 +399,11 @@ def evaluate(ctx: Ctx, scs: List[dict], procs: int = 14) -> None:
         """one run of one scenario: the property monitors and the model comparison, collected in `f`"""
         iv = wk.impl_view(o)
         monitors(f, sc, o, iv)
+        if "noread_h1" in sc["kinds"]:
+            # a handler held in a transport write that the peer does not drain: the worker model has no such state (its
+            # handlers end when they are cancelled) - the scenario is judged by the monitors only (known finding F113)
+            f.count("not_compared", "blocked_write_outside_model")
+            return
         if model is not None:
             r = model[i]
             if "ok" not in r:
